@@ -4,6 +4,8 @@ import LasioProofs.Props.C04
 /-
 Helper lemmas for C03 / C12 (header part of the writer and its inverse through the reader).
 -/
+deriving instance DecidableEq for Except
+
 namespace Lasio.Wr
 
 /-! ### widths -/
@@ -371,5 +373,113 @@ theorem strip_formatItem (o : Order) (W : Widths) (it : WItem)
         exact getLast?_append_ne _ _ hlast
       rw [this] at hch
       exact last_nospace_of_strip hl ch hch
+
+theorem layout_head (f : Fields) (a : Char) (t : Str) (h : f.name = a :: t) (p1 p2 p3 p4 p5 : Str) :
+    ∃ tl, layout f [] p1 p2 p3 p4 p5 = a :: tl :=
+  ⟨t ++ p1 ++ '.' :: (f.unit ++ p2 ++ f.value ++ p3 ++ ':' :: (p4 ++ f.descr ++ p5)), by simp [layout, h]⟩
+
+/-- one iteration of the reader's loop on a written line -/
+theorem readLine_formatItem (v : String) (kind : SecName) (c : MCase) (o : Order) (W : Widths) (it : WItem)
+    (hkind : kind ≠ .other) (hw : orderOf v (secKey kind) it.orig = .ok o)
+    (hcase : orderOf v (secKey kind) (caseMap c it.orig) = orderOf v (secKey kind) it.orig)
+    (hconf : Conf kind (lineFields o it)) (hnum : it.unit = [] ∨ ¬ allDigits it.unit)
+    (hbr : isBracketed it.unit = false)
+    (hpad : rhsOf o it ≠ [] → 1 ≤ W.middle - it.unit.length - (rhsOf o it).length)
+    (hmark : it.orig.head? ≠ some '#' ∧ it.orig.head? ≠ some '~') :
+    readLine v kind c (formatItem o W it) = .item (expected c it) := by
+  have hne : it.orig ≠ [] := hconf.name_ne
+  have hr := readItem_layout v kind c o it (List.replicate (W.left - it.orig.length) ' ')
+    (List.replicate (W.middle - it.unit.length - (rhsOf o it).length) ' ')
+    (if lastOf o it = [] then [] else [' ']) hkind hw hcase hconf hnum hbr
+    (blank_replicate _) (blank_replicate _) (by split; exact blank_nil; exact blank_one)
+    (by
+      intro h1 h2
+      have := hpad h1
+      have hl := congrArg List.length h2
+      simp at hl
+      omega)
+    (by intro h; simp [h])
+  obtain ⟨a, t, hat⟩ : ∃ a t, it.orig = a :: t := by
+    cases h : it.orig with
+    | nil => exact absurd h hne
+    | cons a t => exact ⟨a, t, rfl⟩
+  obtain ⟨tl, htl⟩ := layout_head (lineFields o it) a t hat (List.replicate (W.left - it.orig.length) ' ')
+    (List.replicate (W.middle - it.unit.length - (rhsOf o it).length) ' ') [' ']
+    (if lastOf o it = [] then [] else [' ']) []
+  have h1 : a ≠ '#' := by intro h; exact hmark.1 (by rw [hat, h]; rfl)
+  have h2 : a ≠ '~' := by intro h; exact hmark.2 (by rw [hat, h]; rfl)
+  unfold readLine
+  rw [strip_formatItem o W it hne hconf.name_strip hconf.descr_strip]
+  rw [htl] at hr ⊢
+  simp [h1, h2, hr]
+
+/-! ### `str.splitlines` -/
+
+theorem splitlinesAux_ne_nil (s acc : Str) (h : s ≠ [] ∨ acc ≠ []) : splitlinesAux s acc ≠ [] := by
+  induction s generalizing acc with
+  | nil =>
+    rcases h with h | h
+    · exact absurd rfl h
+    · cases acc with
+      | nil => exact absurd rfl h
+      | cons a t => simp [splitlinesAux]
+  | cons ch rest ih =>
+    by_cases hcr : ∃ r, ch = '\r' ∧ rest = '\n' :: r
+    · obtain ⟨r, rfl, rfl⟩ := hcr
+      simp [splitlinesAux]
+    · have e : splitlinesAux (ch :: rest) acc =
+          if isLineBreak ch then acc.reverse :: splitlinesAux rest [] else splitlinesAux rest (ch :: acc) := by
+        rw [splitlinesAux]
+        intro r h1 h2
+        exact hcr ⟨r, h1, h2⟩
+      rw [e]
+      split
+      · simp
+      · exact ih _ (Or.inr (by simp))
+
+theorem splitlinesAux_join (s acc : Str) (h1 : ∀ c ∈ s, isLineBreak c = true → c = '\n')
+    (h2 : (acc.reverse ++ s).getLast? ≠ some '\n') :
+    joinWith ['\n'] (splitlinesAux s acc) = acc.reverse ++ s := by
+  induction s generalizing acc with
+  | nil =>
+    cases acc with
+    | nil => rfl
+    | cons a t => simp [splitlinesAux, joinWith]
+  | cons ch rest ih =>
+    by_cases hb : isLineBreak ch = true
+    · have hch : ch = '\n' := h1 ch (by simp) hb
+      subst hch
+      have hrest : rest ≠ [] := by
+        rintro rfl
+        exact h2 (by simp)
+      have e : splitlinesAux ('\n' :: rest) acc = acc.reverse :: splitlinesAux rest [] := by
+        rw [splitlinesAux]
+        · simp [hb]
+        · intro r hr; cases hr
+      rw [e]
+      have hne := splitlinesAux_ne_nil rest [] (Or.inl hrest)
+      have ih' := ih [] (fun c hc => h1 c (by simp [hc])) (by
+        intro hl
+        apply h2
+        rw [List.getLast?_append]
+        simp only [List.reverse_nil, List.nil_append] at hl
+        rw [List.getLast?_cons_of_ne_nil hrest] at *
+        simp [hl])
+      cases hsl : splitlinesAux rest [] with
+      | nil => exact absurd hsl hne
+      | cons x xs =>
+        rw [hsl] at ih'
+        simp only [joinWith]
+        rw [ih']
+        simp only [List.reverse_nil, List.nil_append, List.append_assoc, List.cons_append]
+    · have hb' : isLineBreak ch = false := by simpa using hb
+      have e : splitlinesAux (ch :: rest) acc = splitlinesAux rest (ch :: acc) := by
+        rw [splitlinesAux]
+        · simp [hb']
+        · intro r hr _
+          subst hr
+          exact absurd hb' (by decide)
+      rw [e, ih (ch :: acc) (fun c hc => h1 c (by simp [hc])) (by simpa using h2)]
+      simp
 
 end Lasio.Wr
